@@ -4,6 +4,8 @@ CONSTANTS
   Vals <- WV
   MaxBatch = 2
   M1s <- M1Small
+  Variants = TRUE
+  Prefix <- NoPrefix
 VIEW genview
 INVARIANTS EmitInv
 CHECK_DEADLOCK FALSE
